@@ -1941,7 +1941,14 @@ impl<T: PPGEvaluatorStrategy> PPGEvaluator<T> {
                         invalidated = true;
                     }
                     Some(my_historical_input) => {
-                        if upstream_historical_output != my_historical_input {
+                        // textual inequality is not enough - only the strategy knows
+                        // whether the difference matters (timestamps...)
+                        if strategy.is_history_altered(
+                            &jobs[upstream_idx].job_id,
+                            &jobs[node_idx].job_id,
+                            my_historical_input,
+                            upstream_historical_output,
+                        ) {
                             debug!("edge invalidated by epheremeral changed in prev run: History for {}->{} changed",
                                    &jobs[upstream_idx].job_id,
                                    &jobs[node_idx].job_id);
